@@ -1,6 +1,8 @@
 import EmsModel.Core.Mask
 import EmsModel.Core.MeshMask
 import EmsModel.Core.Proto
+import EmsModel.Core.NpMask
+import EmsModel.Gen.Pipelines
 /-! Line-protocol driver for C07.
 
 arrays: `<ny>x<nx> <bits>` (C order); printed as `<ny>x<nx>:<bits>` (`-` for no bits)
@@ -9,6 +11,10 @@ arrays: `<ny>x<nx> <bits>` (C order); printed as `<ny>x<nx>:<bits>` (`-` for no 
 `smear <shape> <bits> <py><px>`         → array
 `smearall <shape> <bits>`               → arrays for 00,01,10,11 joined by `|`
 `cmask <shape> <bits>`                  → `face=…;back=…;left=…;node=…`
+`pipe blur <shape> <bits> <size>` / `pipe blurall <shape> <bits> <max>` → as `blur` / `blurall`, from the term GENERATED
+                                          FROM THE SOURCE of `blur_mask` (`Gen.blurMask`); a negative size is `ERR`
+`pipe cmask <shape> <bits>`             → the same line, back / left / node coming from the terms GENERATED FROM THE SOURCE
+                                          of `c_mask_from_centres` + `smear_mask` (`Gen.cMaskBack/Left/Node`), or `ERR`
 `gridmask <shape> <truth> <hits> <buffer>`     → array   (truth = GEOS table per cell,
 `arakawamask <shape> <truth> <hits> <buffer>`  → cmask    hits = the true cells in any order;
                                                           `BAD` if hits is not exactly that set)
@@ -125,6 +131,26 @@ def step (line : String) : String :=
   | ["cmask", sh, bits] =>
     match parseMask? sh bits with
     | some m => showCMask (cMaskFromCentres m)
+    | _ => "BAD"
+  | ["pipe", "blur", sh, bits, size] =>
+    match parseMask? sh bits, parseInt? size with
+    | some m, some s =>
+      if s < 0 then "ERR" else
+      match eval (blurEnv m s.toNat) Gen.blurMask with | some r => showMaskArr r | none => "ERR"
+    | _, _ => "BAD"
+  | ["pipe", "blurall", sh, bits, mx] =>
+    match parseMask? sh bits, parseNat? mx with
+    | some m, some mx => joinWith "|" ((List.range (mx + 1)).map fun s =>
+        match eval (blurEnv m s) Gen.blurMask with | some r => showMaskArr r | none => "ERR")
+    | _, _ => "BAD"
+  | ["pipe", "cmask", sh, bits] =>
+    match parseMask? sh bits with
+    | some m =>
+      let env := cMaskEnv m
+      match eval env Gen.cMaskBack, eval env Gen.cMaskLeft, eval env Gen.cMaskNode with
+      | some b, some l, some n =>
+        s!"face={showMask m};back={showMaskArr b};left={showMaskArr l};node={showMaskArr n}"
+      | _, _, _ => "ERR"
     | _ => "BAD"
   | ["gridmask", sh, truth, hits, buffer] =>
     match parseShape? sh, parseInt? buffer with
